@@ -100,6 +100,7 @@ type Env struct {
 	served   Served
 	effects  []string        // Coq terms
 	effJSON  []interface{}   // readable form
+	sentLog  []sentMsg       // raw messages handed to the messenger during the current step (for step observers)
 	precheck map[string]bool // kinds answered permissively and not recorded (service-level pre-checks)
 	counter  int
 	crashAt  int // >0: panic when the crashAt-th effect is about to be recorded... (0 = never)
